@@ -96,7 +96,7 @@ __CPROVER_ensures(__CPROVER_return_value == (pos < self->amount) && QN_inv(*self
 __CPROVER_ensures(pos < self->amount ==> NumVec_value(&self->numbers) == UPD(g_oldv, (unsigned long)pos, val))
 __CPROVER_ensures(pos >= self->amount ==> (NumVec_value(&self->numbers) == g_oldv && self->NumbersHash == g_oldh))
 //@end
-//@harness h_QN_set enforce=QN_set props=C07 min_obl=176 reach=2 timeout=60
+//@harness h_QN_set enforce=QN_set props=C07 min_obl=200 reach=2 timeout=60
 void h_QN_set(void) { QN *q; int pos; double val; _Bool r = QN_set(q, pos, val); if (r) REACH("stored"); else REACH("rejected"); }
 
 /* operator<, operator!= : pomerol compares the HASHES only (pins; no hypothesis).
@@ -337,7 +337,7 @@ __CPROVER_loop_invariant(0 <= n && n <= NOperations && QNumbers.amount == g_nops
 __CPROVER_loop_invariant(n == 0 ? QNumbers.NumbersHash == g_h0 : (n < NOperations || QNumbers.NumbersHash == g_qhs[FockStateIndex]))
 __CPROVER_decreases(NOperations - n)
 //@end
-//@harness h_SC_compute_qn enforce=SC_compute_qn props=C07 min_obl=1322 reach=7 timeout=120
+//@harness h_SC_compute_qn enforce=SC_compute_qn props=C07 min_obl=1340 reach=7 timeout=120
 void h_SC_compute_qn(void)
 {
   struct StatesClassification *p;
